@@ -99,7 +99,13 @@ class Posting:
         for v in sorted(con_vars(con)):
             self.lit((v, True))
         if kind == 'clause':
-            self.sm.add_clause([self.lit(l) for l in con[1]])
+            # the clause is handed over in a list that the caller goes on using (a scratch list that is cleared and refilled
+            # for every clause): what was posted must not follow the later contents of that list
+            if not hasattr(self, 'scratch'):
+                self.scratch = []
+            self.scratch.clear()
+            self.scratch.extend(self.lit(l) for l in con[1])
+            self.sm.add_clause(self.scratch)
         elif kind == 'imply':
             self.sm.imply([self.lit(l) for l in con[1]], self.lit(con[2]))
         elif kind == 'amo':
